@@ -462,7 +462,7 @@ def gen_points(r, n, d, quick):
     return style, xs
 
 
-def gen_trx(r, quick, kind=None, n_fixed=None):
+def gen_trx(r, quick, kind=None, n_fixed=None, kern_fixed=None):
     """one problem and the op lines of its configuration cross (one group = one problem; objectives are compared
     within a group, sparse/dense and float/double twins must agree bit for bit on exact data)"""
     kind = kind or r.choice(["c", "c", "c", "q", "q", "e", "o", "r", "m"])
@@ -500,7 +500,7 @@ def gen_trx(r, quick, kind=None, n_fixed=None):
         ys = [float(r.below(3)) for _ in range(n)]
         if all(y == ys[0] for y in ys): ys[r.below(n)] = (ys[0] + 1.0) % 3
         bias_opts = (0,)
-    kern = "lin" if kind == "m" else r.choice(["lin", "lin", "rbf"])      # the missing-feature trainer refuses kernels of fixed input size
+    kern = "lin" if kind == "m" else (kern_fixed or r.choice(["lin", "lin", "rbf"]))      # the missing-feature trainer refuses kernels of fixed input size
     gamma = r.choice([0.5, 0.125, 1.0])
     eps = r.choice([1e-3, 2.0 ** -10, 2.0 ** -4, 2.0 ** -16 if kern == "lin" else 2.0 ** -7])
     dim = 2 * n if kind == "e" else n
@@ -521,6 +521,10 @@ def gen_trx(r, quick, kind=None, n_fixed=None):
         if kind == "c":
             for cache in (2 * dim, r.choice([2 * dim + 1, 3 * dim + 1, 5 * dim, dim * dim + 3])):
                 add(shrink=r.below(2), pre=2, cache=cache, dbl=r.below(2))
+            # sparse inputs behind a two-row cache with shrinking: rows are recomputed after coordinate flips (with the Gaussian
+            # kernel this is the GaussianKernelMatrix path of trainBinary, which keeps its own table of squared norms)
+            add(shrink=1, sparse=1, pre=2, cache=2 * dim, dbl=r.below(2))
+            add(shrink=1, sparse=1, pre=0)
             wm = r.choice([1, 2, 3, 4])
             if wm == 4:        # the previous machine was trained with the other bias setting (its coefficients need not sum to 0)
                 add(shrink=r.below(2), warmmode=4, warmit=r.choice([3, 100000]), warmfac=r.choice([1.0, 0.25, 4.0]), pre=r.choice([0, 1]))
@@ -602,6 +606,8 @@ def run_extended(ctx, exe, r, ngen):
     groups_all.append(gen_trx(r, ctx.quick, kind="o", n_fixed=1))     # a single point: one free variable, offset = its gradient
     for k in "cqerm":
         groups_all.append(gen_trx(r, ctx.quick, kind=k, n_fixed=2))   # the smallest two-class / one-pair problems
+    for _ in range(16 if ctx.quick else 60):                           # Gaussian kernel on sparse inputs behind small caches with shrinking
+        groups_all.append(gen_trx(r, ctx.quick, kind="c", kern_fixed="rbf"))
     for _ in range(3 if ctx.quick else 12):
         groups_all.append(gen_trx_slow(r, ctx.quick))
     for info, groups in groups_all:
